@@ -89,6 +89,7 @@ type Obl struct {
 	WantSat  bool // vacuity: require sat of Guard (Cond ignored)
 	Auto     int  // >0: auto invariant candidate id
 	AutoDesc string
+	Local    []*Term // facts that are only asserted for this obligation (inside its push/pop scope)
 	RetSt    *State
 	RetVals  []*Term
 	// results
@@ -144,6 +145,8 @@ type VC struct {
 	usedLemmas        []string
 	places            *framePlaces
 	tableFacts        int
+	noGround          bool
+	groundVals        map[string]*Term // table cells with literal values (constant propagation into specifications)
 	callCount         map[string]int
 	assertsSeen       int
 	assertHit         map[string]bool
@@ -174,7 +177,11 @@ func newVC(eng *Engine, fn *ssa.Function, con *Contract) *VC {
 		specUF: map[string]*specUFInfo{}, strConsts: map[string]*Term{}, assumed: map[string]bool{},
 		calleesNoContract: map[string]bool{}, calleesContract: map[string]bool{}, inlined: map[string]bool{},
 		oblCount: map[string]int{}, autoInvs: map[int]*autoInv{}, disabledAuto: map[string]bool{}}
+	vc.noGround = true
 	if con != nil {
+		// opt ground=on: reads of dumped table cells at literal positions are replaced by their values while
+		// translating specifications (needed where the specification applies bit operations to table entries)
+		vc.noGround = con.Opts["ground"] != "on"
 		vc.mode = con.Mode
 		vc.pkgPath = con.PkgPath
 		if con.Opts["overflow"] == "on" {
